@@ -429,7 +429,7 @@ func (k *checker) evalConfig(c Case) {
 		probes = append(probes, probe{s.tenant, &prompb.TimeSeries{Labels: s.labels}, labelpb.HashWithPrefix(s.tenant, s.labels), s.desc})
 	}
 	r.Add("lookups_of_sized_series_(configurations_x_series)", int64(len(k.sized)))
-	want := make([]uint64, len(probes))               // replica sets on the base ring
+	want := make([]uint64, len(probes))              // replica sets on the base ring
 	first := make([][]receive.Endpoint, len(probes)) // replica lists on the base ring, as first answered
 	for pi, p := range probes {
 		var reps []receive.Endpoint
